@@ -48,8 +48,8 @@ import (
 
 func TestMain(m *testing.M) {
 	stats.Init("C16")
-	stats.Rule("(A) streams = handshake (valid | one of 8 deviations | truncated) + 0-6 frames each valid (len 0..L, L drawn from {1,7,8,64,1000,1MiB}) or hostile (announced length L+1, 2L, 2^26..2^62, negative; truncated prefix/body; IPC prefix byte), tcp and ipc framing; (B) constructor x {tcp,ipc,ws} x 1-4 hostile raw peers with drawn scripts next to a control peer; (C) 24 constructors x 1-30 generated bodies of 0-12 bytes plus structured garbage over vt. Non-trivial: the input is not a valid handshake+frame sequence; distinct by (layer, defect classes, length classes)")
-	stats.Assume("MaxRecvSize=0 (documented: no limit, trusted peers only) is outside the hostile-length domain; the IPC prefix byte value of incoming frames is not asserted")
+	stats.Rule("(A) streams = handshake (valid | one of 8 deviations | truncated) + 0-6 frames each valid (len 0..L, L drawn from {1,7,8,64,1000,1MiB} or 0 = unlimited, where only negative lengths are hostile) or hostile (announced length L+1, 2L, 2^26..2^62, negative; truncated prefix/body; IPC prefix byte), tcp and ipc framing; (B) constructor x {tcp,ipc,ws} x 1-4 hostile raw peers with drawn scripts next to a control peer; (C) 24 constructors x 1-30 generated bodies of 0-12 bytes plus structured garbage over vt. Non-trivial: the input is not a valid handshake+frame sequence; distinct by (layer, defect classes, length classes)")
+	stats.Assume("with MaxRecvSize=0 (documented: no limit, trusted peers only) huge positive lengths are not sent (honouring them is the documented behaviour), negative ones are; the IPC prefix byte value of incoming frames is not asserted")
 	rc := m.Run()
 	stats.Flush()
 	fixture.Cleanup()
@@ -186,7 +186,7 @@ func (sc *streamCase) build() (stream []byte, hsOK bool, want [][]byte, failAt i
 func genStream(t *rapid.T) *streamCase {
 	sc := &streamCase{Test: "TestC16Stream"}
 	sc.IPC = rapid.Bool().Draw(t, "ipc")
-	sc.L = rapid.SampledFrom([]int{1, 7, 8, 64, 1000, 1 << 20}).Draw(t, "L")
+	sc.L = rapid.SampledFrom([]int{1, 7, 8, 64, 1000, 1 << 20, 0}).Draw(t, "L") // 0: no limit; only negative lengths are hostile then
 	sc.Key = rapid.Uint64().Draw(t, "key")
 	sc.Chunk = rapid.SampledFrom([]int{0, 0, 1, 2, 3, 5, 7, 8, 9, 64}).Draw(t, "readChunk")
 	sc.HS = rapid.SampledFrom([]string{"ok", "ok", "ok", "ok", "deviate", "truncated", "otherproto"}).Draw(t, "hs")
@@ -196,10 +196,13 @@ func genStream(t *rapid.T) *streamCase {
 	for i := 0; i < n; i++ {
 		f := frameSpec{IPCByte: 1}
 		f.Kind = rapid.SampledFrom([]string{"ok", "ok", "ok", "at-limit", "oversize", "negative", "trunc-prefix", "trunc-body"}).Draw(t, "kind")
+		if sc.L == 0 && (f.Kind == "at-limit" || f.Kind == "oversize") {
+			f.Kind = "ok" // without a limit every non-negative length is acceptable (and a huge one is the application's risk)
+		}
 		switch f.Kind {
 		case "ok":
 			max := sc.L
-			if max > 5000 {
+			if max > 5000 || max == 0 {
 				max = 5000
 			}
 			f.Len = int64(rapid.IntRange(0, max).Draw(t, "len"))
@@ -217,7 +220,7 @@ func genStream(t *rapid.T) *streamCase {
 			f.Len = 5
 		case "trunc-body":
 			f.Len = int64(rapid.IntRange(1, 64).Draw(t, "tlen"))
-			if f.Len > int64(sc.L) {
+			if sc.L > 0 && f.Len > int64(sc.L) {
 				f.Len = int64(sc.L)
 			}
 			f.Have = rapid.IntRange(0, int(f.Len)-1).Draw(t, "thave")
@@ -675,12 +678,15 @@ func TestC16HostilePeers(t *testing.T) {
 		rapid.Check(t, func(t *rapid.T) {
 			p := fixture.Protos[rapid.IntRange(0, len(fixture.Protos)-1).Draw(t, "ctor")]
 			tr := rapid.SampledFrom([]string{"tcp", "tcp", "ipc", "tls+tcp"}).Draw(t, "transport")
-			L := rapid.SampledFrom([]int{64, 1000, 1 << 20}).Draw(t, "L")
+			L := rapid.SampledFrom([]int{64, 1000, 1 << 20, 0}).Draw(t, "L") // 0: unlimited
 			nh := rapid.IntRange(1, 4).Draw(t, "hostile")
 			scripts := make([]hostileScript, nh)
 			for i := range scripts {
 				scripts[i].Kind = rapid.SampledFrom([]string{"silent", "garbage-handshake", "truncated-handshake", "oversize", "negative", "truncated-frame", "malformed-body", "huge"}).Draw(t, "script")
 				scripts[i].Arg = int64(rapid.IntRange(0, 7).Draw(t, "arg"))
+				if L == 0 && (scripts[i].Kind == "oversize" || scripts[i].Kind == "huge") {
+					scripts[i].Kind = "negative" // without a limit only a negative length is out of bounds
+				}
 			}
 			doc := map[string]interface{}{"test": "TestC16HostilePeers", "ctor": p.Name, "transport": tr, "limit": L, "scripts": scripts, "rseed": os.Getenv("VERIF_RSEED")}
 			fail := func(k, f string, a ...interface{}) {
